@@ -22,7 +22,7 @@ int main(void)
   world_init(0);
   /* ---- arbitrary established pre-state */
   uint32_t state = nondet_u32(), expected = nondet_u32(), next_send = nondet_u32();
-  VF_ASSUME(IS_ESTABLISHED(state) && expected >= 1 && expected < 10000000 && next_send >= 1 && next_send < 10000000);
+  VF_ASSUME(IS_ESTABLISHED(state) && state != st_logon_received && expected >= 1 && next_send >= 1);      /* full unsigned 32-bit range */
 #ifdef ONLY_STATE
   VF_ASSUME(state == ONLY_STATE);
 #endif
@@ -57,9 +57,13 @@ int main(void)
 #ifdef FACTORY_NULL
   m_factory_null = 1;
 #endif
-  uint8_t d[7]; for (int i = 0; i < 7; i++) { d[i] = nondet_u8(); VF_ASSUME(d[i] >= '0' && d[i] <= '9'); }
-  uint32_t seq = digits_value(d);
-  uint8_t raw[12]; uint32_t rawn = raw_seq(raw, d);
+  uint8_t d[ND]; for (int i = 0; i < ND; i++) { d[i] = nondet_u8(); VF_ASSUME(d[i] >= '0' && d[i] <= '9'); }
+  VF_ASSUME(digits_value(d) <= 0xffffffffULL);                   /* MsgSeqNum: any unsigned 32-bit value, as 10 decimal digits */
+  uint32_t seq = (uint32_t)digits_value(d);
+#ifdef SEQ_WINDOW
+  VF_ASSUME(SEQ_WINDOW);
+#endif
+  uint8_t raw[16]; uint32_t rawn = raw_seq(raw, d);
   cx_state = state; cx_expected = expected; cx_seq = seq; cx_type0 = type[0]; cx_type1 = TLEN > 1 ? type[1] : 0; cx_decode_fail = m_decode_fail; cx_factory_null = m_factory_null;
   cx_has_pd = m_has_pd; cx_pd = m_pd; cx_has_ost = m_has_ost; cx_st = m_st; cx_ost = m_ost; cx_enforce = enforce; cx_silent = silent; cx_reliable = reliable; cx_active = active;
   for (int i = 0; i < 2; i++) { cx_sid_s[i] = sid_s[i]; cx_sid_t[i] = sid_t[i]; cx_msg_s[i] = msg_s[i]; cx_msg_t[i] = msg_t[i]; }
